@@ -648,4 +648,35 @@ theorem roundtrip (t : Table) (h : t.wf = true) : readCoreBytes (encode t) = som
   rw [words_flatMap_beBytes 4 (by omega) _ (fun x hx => by have := w.coeffs_lt x hx; exact Nat.lt_of_lt_of_le this (by decide))]
   rfl
 
+theorem findExtHdu_mem (name : Bytes) : ∀ (hs : List Hdu) (h : Hdu), findExtHdu name hs = some h → h ∈ hs
+  | [], _, e => by unfold findExtHdu at e; exact absurd e (by simp)
+  | x :: hs, h, e => by
+    unfold findExtHdu at e
+    by_cases hn : (extName x.cards == some name) = true
+    · rw [if_pos hn] at e
+      rw [← Option.some.inj e]; exact List.mem_cons_self ..
+    · rw [if_neg hn] at e
+      exact List.mem_cons_of_mem _ (findExtHdu_mem name hs h e)
+
+/-- … and the complete reader (`read_fits_core` including the extents) accepts that file -/
+theorem readBytes_encode (t : Table) (h : t.wf = true) : ∃ v, readBytes (encode t) = some v ∧ v.core = t.core := by
+  have hc : readCore (hdusOf (encode t)) = some t.core := roundtrip t h
+  have hdata : ∀ x ∈ hdusOf (encode t), ∃ d, x.data = some d := by
+    rw [hdusOf_encode t (wf_spec h)]
+    intro x hx
+    obtain ⟨p, _, rfl⟩ := List.mem_map.1 hx
+    exact ⟨p.2, rfl⟩
+  unfold readBytes readTable
+  rw [hc]
+  simp only
+  unfold readExtents
+  cases hf : findExtHdu extentsName (hdusOf (encode t)) with
+  | none => exact ⟨_, rfl, rfl⟩
+  | some x =>
+    obtain ⟨d, hd⟩ := hdata x (findExtHdu_mem _ _ _ hf)
+    simp only
+    by_cases hcond : (bytesPerPix x.cards == some 8 && axes x.cards == some [2 * t.core.orders.length]) = true
+    · rw [if_pos hcond, hd]; exact ⟨⟨t.core, _⟩, rfl, rfl⟩
+    · rw [if_neg hcond]; exact ⟨⟨t.core, _⟩, rfl, rfl⟩
+
 end PsV.C08
